@@ -4,12 +4,12 @@
 
 /// Length of the vector the stubbed base64 decoder returns (a concrete harness parameter).
 #[cfg(kani)]
-pub static mut B64_STUB_LEN: usize = 0;
+pub static mut B64_STUB_LEN: usize = 0x5eed_b64a_0000_0001; // distinctive: see note in verif_models.rs on zero-initialised statics
 /// What the decoder was handed (for assertions about the '=' stripping step).
 #[cfg(kani)]
-pub static mut B64_STUB_SAW_EQ: bool = false;
+pub static mut B64_STUB_SAW_EQ: u64 = 0x5eed_b64a_0000_0002; // 0 / 1 once set
 #[cfg(kani)]
-pub static mut B64_STUB_INPUT_LEN: usize = usize::MAX;
+pub static mut B64_STUB_INPUT_LEN: usize = 0x5eed_b64a_0000_0003;
 
 /// Stub for `BASE64_STANDARD_NO_PAD.decode(text)`: `Err`, or an arbitrary byte vector of length
 /// `B64_STUB_LEN`. base64 itself (third-party) is trusted; measured: the real engine with two
@@ -27,7 +27,7 @@ pub fn base64_decode(text: &str) -> Result<Vec<u8>, base64::DecodeError> {
             }
             i += 1;
         }
-        B64_STUB_SAW_EQ = saw;
+        B64_STUB_SAW_EQ = saw as u64;
     }
     if kani::any() {
         return Err(base64::DecodeError::InvalidLength(0));
